@@ -143,31 +143,51 @@ func genEncCases(g *gen.G, n int, types map[string]reflect.Type) []encCase {
 	return genEncCasesOpt(g, n, types, false)
 }
 
-// anyPrims: additionally put every primitive Go type into every interface-typed position, whatever the selector announces
-// (such values are encodable, but not well-formed in C01's sense: Decode types the position by the selector)
-func genEncCasesOpt(g *gen.G, n int, types map[string]reflect.Type, anyPrimsToo bool) []encCase {
-	names := typeNames(types)
+// bigCases: messages larger than the sizes any buffer in the codec starts with (one value of 4095..20000 bytes with
+// non-uniform content, or hundreds of small items adding up to 5..40 KiB): whatever is done per chunk, per reallocation or per
+// nesting level only shows on such messages. All are well-formed.
+func bigCases() []encCase {
+	ver := kmip.ProtocolVersion{Major: 1, Minor: 4}
+	blob := func(n int) []byte {
+		b := make([]byte, n)
+		for i := range b {
+			b[i] = byte(1 + (i*7+i/251)%255)
+		}
+		return b
+	}
+	var tops []interface{}
+	for _, n := range []int{4095, 4096, 4097, 5000, 8192, 8193, 12289, 20000} {
+		tops = append(tops,
+			&kmip.Response{Header: kmip.ResponseHeader{Version: ver, TimeStamp: time.Unix(1000000000, 0), BatchCount: 1},
+				BatchItems: []kmip.ResponseBatchItem{{Operation: kmip.OPERATION_DECRYPT, ResultStatus: kmip.RESULT_STATUS_SUCCESS, ResponsePayload: kmip.DecryptResponse{UniqueIdentifier: "k", Data: blob(n)}}}},
+			&kmip.Request{Header: kmip.RequestHeader{Version: ver, BatchCount: 1},
+				BatchItems: []kmip.RequestBatchItem{{Operation: kmip.OPERATION_GET, RequestPayload: kmip.GetRequest{UniqueIdentifier: string(bytes.ToLower(bytes.Map(func(r rune) rune { return 'a' + r%26 }, blob(n))))}}}})
+	}
+	for _, k := range []int{90, 200, 800} {
+		ids := make([]string, k)
+		for i := range ids {
+			ids[i] = fmt.Sprintf("object-%04d-%s", i, strings.Repeat("x", i%9))
+		}
+		tops = append(tops, &kmip.Response{Header: kmip.ResponseHeader{Version: ver, TimeStamp: time.Unix(1000000000, 0), BatchCount: 1},
+			BatchItems: []kmip.ResponseBatchItem{{Operation: kmip.OPERATION_LOCATE, ResultStatus: kmip.RESULT_STATUS_SUCCESS, ResponsePayload: kmip.LocateResponse{LocatedItems: int32(k), UniqueIdentifiers: ids}}}})
+		var attrs kmip.Attributes
+		for i := 0; i < k; i++ {
+			attrs = append(attrs, kmip.Attribute{Name: kmip.ATTRIBUTE_NAME_CRYPTOGRAPHIC_LENGTH, Index: int32(i), Value: int32(128 + i)})
+		}
+		tops = append(tops, &kmip.Request{Header: kmip.RequestHeader{Version: ver, BatchCount: 1},
+			BatchItems: []kmip.RequestBatchItem{{Operation: kmip.OPERATION_CREATE, RequestPayload: kmip.CreateRequest{ObjectType: kmip.OBJECT_TYPE_SYMMETRIC_KEY, TemplateAttribute: kmip.TemplateAttribute{Attributes: attrs}}}}})
+	}
 	var cs []encCase
-	for i := 0; i < n; i++ {
-		name := names[i%len(names)]
-		if i >= len(names)*2 && g.R.Intn(3) != 0 {
-			// weight the message envelopes: they reach every other type
-			name = []string{"Request", "Response", "Request", "Response", "RequestBatchItem", "ResponseBatchItem", "Attribute", "Authentication"}[g.R.Intn(8)]
-		}
-		p := g.NewStruct(types[name])
-		var top interface{}
-		if g.R.Intn(2) == 0 {
-			top = p.Interface()
-		} else {
-			top = p.Elem().Interface()
-		}
-		cs = append(cs, encCase{typ: name, val: p, top: top, line: render.Top(top)})
+	for _, top := range tops {
+		cs = append(cs, encCase{typ: reflect.TypeOf(top).Elem().Name(), val: reflect.ValueOf(top), top: top, line: render.Top(top)})
 	}
-	if !anyPrimsToo {
-		return cs
-	}
-	// byte-string fields carved out of ONE backing array (ciphertext||tag as cipher.AEAD.Seal returns it, iv||data, ...): each
-	// field has spare capacity that belongs to the next one; lengths are not multiples of 8 so that every field gets padded
+	return cs
+}
+
+// aliasedCases: byte-string fields carved out of ONE backing array (ciphertext||tag as cipher.AEAD.Seal returns it, iv||data, ...):
+// each field has spare capacity that belongs to the next one; lengths are not multiples of 8 so that every field gets padded
+func aliasedCases(g *gen.G, types map[string]reflect.Type) []encCase {
+	var cs []encCase
 	for _, name := range typeNames(types) {
 		t := types[name]
 		var idx []int
@@ -200,6 +220,34 @@ func genEncCasesOpt(g *gen.G, n int, types map[string]reflect.Type, anyPrimsToo 
 			cs = append(cs, encCase{typ: name, val: p, top: top, line: render.Top(top)})
 		}
 	}
+	return cs
+}
+
+// anyPrims: additionally put every primitive Go type into every interface-typed position, whatever the selector announces
+// (such values are encodable, but not well-formed in C01's sense: Decode types the position by the selector)
+func genEncCasesOpt(g *gen.G, n int, types map[string]reflect.Type, anyPrimsToo bool) []encCase {
+	names := typeNames(types)
+	var cs []encCase
+	for i := 0; i < n; i++ {
+		name := names[i%len(names)]
+		if i >= len(names)*2 && g.R.Intn(3) != 0 {
+			// weight the message envelopes: they reach every other type
+			name = []string{"Request", "Response", "Request", "Response", "RequestBatchItem", "ResponseBatchItem", "Attribute", "Authentication"}[g.R.Intn(8)]
+		}
+		p := g.NewStruct(types[name])
+		var top interface{}
+		if g.R.Intn(2) == 0 {
+			top = p.Interface()
+		} else {
+			top = p.Elem().Interface()
+		}
+		cs = append(cs, encCase{typ: name, val: p, top: top, line: render.Top(top)})
+	}
+	cs = append(cs, bigCases()...)
+	if !anyPrimsToo {
+		return append(cs, aliasedCases(g, types)...)
+	}
+	cs = append(cs, aliasedCases(g, types)...)
 	// every primitive Go type the codec knows, in every interface-typed position, whatever the selector announces
 	d1, d2, d3 := 90*time.Second, time.Hour, 1500*time.Millisecond
 	i32, i64, en, bo, st, by, tm := int32(-5), int64(1)<<40, kmip.Enum(7), true, "text", []byte{1, 2, 3}, time.Unix(1000000000, 0)
